@@ -507,5 +507,41 @@ PROPS["C17"] = {
     "assumptions": [],
 }
 
+PROPS["C10"] = {
+    "package": "c10", "exe": "m_c10",
+    "rule": "editing programs against the real editor (library API): the owner creates a repository (RepositoryEditor::new, "
+            "0..3 of 2..7 targets with names in sub-directories / with spaces / non-ASCII and sizes 0..32 KiB, versions and "
+            "expirations, targets role with 1..2 keys of mixed algorithms and threshold 1..2, both consistent-snapshot settings), "
+            "signs and writes it; in 2 of 3 programs it is loaded again and 1..3 delegated roles (depth up to 3, 1..3 keys of "
+            "mixed algorithms, threshold 1..3, 0..3 targets each) are added through the cross-party flow: the role's holder "
+            "builds and signs its own metadata with TargetsEditor (genuine / signed by too few keys / signed by other keys), "
+            "the owner incorporates it with add_role under the top-level targets or, after sign_targets_editor + "
+            "change_delegated_targets, under another role which is then re-signed with its own keys; in half of these programs "
+            "the holder publishes an update (genuine and newer / under-signed / wrong keys / older version) incorporated with "
+            "update_delegated_targets; the owner signs with an adequate or an inadequate key set, or with a version / expiration "
+            "missing. If the editor reports success: write, publish every listed target (copy or symlink), load with a fresh "
+            "client, compare versions, every role's targets (length, digest), the delegation tree (names, key ids, thresholds, "
+            "versions), download every target, and compare every snapshot / timestamp entry with the written file (length, "
+            "SHA-256, version). 120 / 1500 programs.",
+    "explanation": "Theorems (Tough/Props/C10.lean): every signature set the editor produces for a non-root role verifies "
+                   "under that role's keys and threshold, whatever key sources were available (signRole_verifies, over C01's "
+                   "verification model), and it refuses exactly when too few authorized keys are available "
+                   "(signRole_none_iff); update_delegated_targets replaces a role only by metadata that meets the delegating "
+                   "role's threshold and is not older (update_checked); add_role (after the repair) grafts only metadata a "
+                   "threshold of the registered keys signed, which the client's identical check then accepts "
+                   "(add_role_checked); the unrepaired add_role is refuted by a witness. Correspondence: the outcome of every "
+                   "step of the program, whether a repository is published, and everything a client sees of it, vs the model; "
+                   "the property is evaluated directly (published => loads, describes its files, every listed target "
+                   "downloads byte-identical).",
+    "level_text": "Kernel-checked decision logic of signing and of incorporating foreign metadata; differential runs of editing "
+                  "programs incl. the cross-party flow against the real editor and a fresh client.",
+    "level_note": "PARTIAL: the end-to-end theorem (editor_roundtrip: the update cycle of the client model succeeds on the written "
+                  "files with the intended view) is stated in Tough/Props/C10.lean and not proved; it is checked by "
+                  "correspondence. What the signed documents contain is C17's editor model. Known finding: listed targets "
+                  "whose names need URL escaping do not download through file:// (same as C19).",
+    "trusted": ["modelled, not verified: key parsing, signature primitives, serde serialisation of the written files"],
+    "assumptions": ["key files name distinct keys"],
+}
+
 _PENDING = "check under construction in this session (DESIGN.md §10 order of work); not claimed until it runs"
 NOT_APPLICABLE = {f"C{i:02d}": _PENDING for i in range(1, 21)}
